@@ -60,6 +60,9 @@ SessionDiff(ev) ==
 
 CliDiff(ev) == (IF ev.panic = 1 \/ ev.exit = 101 THEN {"cli_panic"} ELSE {})
                \cup (IF ev.invalid = 1 /\ ev.exit # 2 THEN {"cli_usage"} ELSE {})
+               \* (runs in a pty) whatever was wrong with the value, the terminal is as it was found
+               \cup (IF "termios_after" \in DOMAIN ev /\ (ev.termios_after # ev.termios_before \/ ev.mouse_left_on # 0)
+                     THEN {"cli_terminal_left_changed"} ELSE {})
 
 EvDiff(ev) ==
   CASE ev.ev = "session_end" -> SessionDiff(ev)
